@@ -13,7 +13,7 @@ import sys
 import time
 import traceback
 
-from . import codec, triage
+from . import codec, observe, triage
 from .unit import Ctx, Outcome
 
 
@@ -39,6 +39,13 @@ def run_hyp(unit, ctx, task, out_path):
     max_shrink_s = float(task.get("max_shrink_s", unit.max_shrink_s))
 
     def body(case):
+        ctx.current = (time.time(), case)
+        try:
+            return _body(case)
+        finally:
+            ctx.current = None
+
+    def _body(case):
         if state["frozen"]:
             # shrink budget used up: only the best case found so far still fails, everything else passes at once,
             # so Hypothesis converges immediately and its final replay is consistent (not flaky).
@@ -102,8 +109,43 @@ def run_hyp(unit, ctx, task, out_path):
 
 def run_fixed(unit, ctx, task):
     for case in unit.cases():
+        ctx.current = (time.time(), case)
         out = unit.check(case)
+        ctx.current = None
         ctx.record(case, out)
+
+
+def start_watchdog(ctx, out_path, stuck_s):
+    """A case stuck inside C code (e.g. catastrophic regex backtracking) cannot be interrupted by SIGALRM: the handler only
+    runs between bytecodes. This thread (the `regex` module releases the GIL while matching) notices a case that has been
+    running for more than stuck_s seconds, saves the worker's results together with the stuck case and ends the process;
+    the runner then decides what the case means. It also touches a heartbeat file so that the runner can tell a worker
+    whose interpreter is blocked altogether."""
+    import threading
+
+    hb = out_path + ".hb"
+
+    def loop():
+        while True:
+            try:
+                with open(hb, "w") as f:
+                    f.write(str(time.time()))
+            except OSError:
+                pass
+            cur = ctx.current
+            if cur is not None and observe.IN_CONFIRM[0] == 0 and time.time() - cur[0] > stuck_s:
+                data = ctx.to_json()
+                data["done"] = False
+                data["stuck"] = {"case": codec.enc(cur[1]), "seconds": round(time.time() - cur[0], 1)}
+                tmp = out_path + ".tmp"
+                with open(tmp, "w") as f:
+                    json.dump(data, f)
+                os.replace(tmp, out_path)
+                os._exit(4)
+            time.sleep(1.0)
+
+    t = threading.Thread(target=loop, daemon=True)
+    t.start()
 
 
 def run_regress(mod, ctx, task):
@@ -138,6 +180,7 @@ def main(argv):
         pass
     sys.setrecursionlimit(int(task.get("recursion_limit", 1000)))
     ctx = Ctx(task["prop"], task["unit"], set(task.get("known_keys", [])), set(task.get("muted", [])))
+    start_watchdog(ctx, out_path, float(task.get("stuck_s", 90)))
     cov = None
     if os.environ.get("VERIF_COVERAGE"):
         # self-audit only (tools/coverage_audit.sh): which repository lines do the generated cases reach?
